@@ -95,6 +95,7 @@ func main() {
 	summarize := flag.String("summarize", "", "regexp of package-level functions replaced by the opaque summary S4 (user hooks)")
 	witnesses := flag.Int("witnesses", 0, "extra randomised witness models per harness end (replayed natively by the runner)")
 	seed := flag.Int64("seed", 0, "seed of the randomised witnesses")
+	timeout2 := flag.Int("timeout2", 20000, "per-query timeout of the cross-check solver (ms); unknown = not cross-checked")
 	doInit := flag.Bool("init", false, "execute the harness package's init (needed for level K globals)")
 	labels := flag.String("labels", "", "regexp: only obligations whose label matches are emitted (no-panic is always kept)")
 	flag.Parse()
@@ -338,7 +339,7 @@ func main() {
 						s2, _ = NewSolver(*solver2)
 					}
 					if s2 != nil {
-						o.Solver2 = s2.Check(j.q.Script, *timeout)
+						o.Solver2 = s2.Check(j.q.Script, *timeout2)
 					}
 				}
 				mu.Lock()
